@@ -1721,7 +1721,7 @@ func hrVersionBumpReturnsPrevious(w *World, r *Report, rule string) {
 	ok := len(st) == 1 && len(vk) == 1
 	if ok {
 		before := func(v ssa.Value) bool {
-			u, isU := peel(v).(*ssa.UnOp)
+			u, isU := peel(unhelp(peel(v))).(*ssa.UnOp)
 			if !isU || u.Op != token.MUL || !strings.HasSuffix(Path(u), ".currentVersion") {
 				return false
 			}
